@@ -27,6 +27,30 @@ RULES = ['none', 'none', 'tx-vin-empty', 'tx-vout-empty', 'value-negative', 'val
          'time-far', 'pow-limit', 'pow-zero', 'pow-negative', 'pow-overflow', 'pow-hash-high', 'empty-block', 'cb-value-negative', 'cb-dup-of-tx', 'value-max', 'total-max']
 
 
+def dup_with_siblings(vin, r):
+    """A duplicate input in one of several shapes: adjacent, at distance, with *sibling* outpoints
+    (same previous transaction, other index) or *cousins* (same index, other transaction) in between,
+    the copy first or last.  Returns the new input list (witness entries are the caller's business)."""
+    vin = [dict(x) for x in vin]
+    k = r[1] % len(vin)
+    dup = dict(vin[k])
+    dup['script'] = 'ff'
+    shape = r[2] % 6
+    sib = lambda d: dict(dup, n=(dup['n'] + d) & 0xffffffff, script='')
+    cous = lambda d: dict(dup, hash='%064x' % (int(dup['hash'], 16) ^ d), script='')
+    if shape == 0:
+        return vin + [dup]
+    if shape == 1:
+        return vin[:k + 1] + [dup] + vin[k + 1:]
+    if shape == 2:
+        return vin + [sib(1), dup]
+    if shape == 3:
+        return vin + [sib(1), cous(1), sib(2), dup]
+    if shape == 4:
+        return [dup, sib(3)] + vin
+    return vin + [cous(2), sib(1), cous(3), dup]
+
+
 class BlockNet(Engine):
     name = 'BLOCKNET'
     props = ('C16',)
@@ -94,6 +118,13 @@ class BlockNet(Engine):
             x = gen.gen_txin(rng)
             x['hash'] = gen.rhex(rng, 32)
             x['n'] = rng.randrange(0, 1000) * 4 + i
+            if i and rng.random() < 0.35:
+                # several outputs of one previous transaction (siblings), or the same index of two
+                # transactions (cousins): distinct outpoints, a valid spend
+                if rng.random() < 0.7:
+                    x['hash'] = vin[0]['hash']
+                else:
+                    x['n'] = vin[0]['n']
             x['script'] = gen.rhex(rng, rng.randint(0, 40))
             vin.append(x)
         vout = [{'value': rng.choice([0, 1, 546, rng.randrange(0, 10 ** 12)]), 'script': gen.rhex(rng, rng.randint(0, 40))} for _ in range(nout)]
@@ -305,10 +336,10 @@ class BlockNet(Engine):
             t['vout'] = [{'value': 21 * 10 ** 14 - 5, 'script': ''}, {'value': 5, 'script': ''}]
         elif rule == 'duplicate-input':
             t = some_tx()
-            t['vin'].append(copy.deepcopy(t['vin'][r[1] % len(t['vin'])]))
-            t['vin'][-1]['script'] = 'ff'
+            t['vin'] = dup_with_siblings(t['vin'], r)
             if t.get('wit'):
-                t['wit'].append([])
+                t['wit'] = [list(x) for x in t['wit']][:0] + [[] for _ in t['vin']]
+                t['wit'][0] = ['ab']
         elif rule in ('cb-script-1', 'cb-script-101', 'cb-script-2', 'cb-script-100'):
             n = int(rule.split('-')[-1])
             txs[0]['vin'][0]['script'] = ('%02x' % (r[1] % 256)) * n
@@ -706,8 +737,10 @@ class BlockNet(Engine):
         elif rule == 'total-max':
             tx['vout'] = [{'value': 21 * 10 ** 14 - 1, 'script': ''}, {'value': 1, 'script': ''}, {'value': 0, 'script': ''}]
         elif rule == 'duplicate-input':
-            tx['vin'].append(copy.deepcopy(tx['vin'][r[0] % len(tx['vin'])]))
+            tx['vin'] = dup_with_siblings(tx['vin'], [r[0], r[0], r[1]])
             tx['vin'][-1]['seq'] ^= 1
+            if tx.get('wit'):
+                tx['wit'] = None
         elif rule == 'null-prevout':
             tx['vin'].append({'hash': BR.NULL_HASH, 'n': 0xffffffff, 'script': '0000', 'seq': 0})
         elif rule.startswith('cb-script-'):
